@@ -138,8 +138,29 @@ def model(e, probe_names, probe_values):
     return out
 
 
-def driver_source(ns, enums, probes, traits):
+def field_probe_values(e, wbits):
+    """Values to offer an enum field of `wbits` bits: 0, 1, the field's all-ones value, its top bit, one past the
+    field (when the enum's C++ type can express it), and the declared values."""
+    u_hi = (1 << (e["ubits"] - (1 if e["signed"] else 0))) - 1
+    vals = {0, 1, (1 << wbits) - 1, 1 << (wbits - 1), (1 << (wbits - 1)) - 1, 1 << wbits}
+    vals.update(v["value"] for v in e["values"])
+    return sorted(x for x in vals if 0 <= x <= u_hi)
+
+
+def driver_source(ns, enums, probes, traits, fields=(), holder_size=0):
     L = ['#include "m.emb.h"', cppdrv.COMMON, "int main() {", "  std::ostringstream out; g_out = &out;"]
+    if fields:
+        L.append("  { static unsigned char hb_[%d] = {0}; auto hv_ = ::%s::MakeHolderView(hb_, sizeof hb_);" % (max(1, holder_size), ns))
+        for e, fname, wbits in fields:
+            if e["signed"]:
+                continue  # narrow signed enum fields: listed finding (C01/C02/C03), not probed here
+            q = "::%s::%s" % (ns, e["name"])
+            for x in field_probe_values(e, wbits):
+                L.append('    { typedef %s E; typedef std::underlying_type<E>::type U; E a_ = static_cast<E>(static_cast<U>(%s)); '
+                         'bool c_ = hv_.%s().CouldWriteValue(a_); bool t_ = hv_.%s().TryToWrite(a_); '
+                         'put("field.%s.%d", std::string(c_ ? "1" : "0") + (t_ ? "1" : "0") + ((t_ && hv_.%s().Read() == a_) ? "1" : "0")); }' % (
+                             q, lit(x, False), fname, fname, fname, x, fname))
+        L.append("  }")
     for e in enums:
         q = "::%s::%s" % (ns, e["name"])
         pn, pv = probes[e["name"]]
@@ -183,14 +204,31 @@ def module_case(arg):
     # one struct using each enum in a field of a legal width (also exercises inline use)
     lines.append("struct Holder:")
     off = 0
+    fields = []  # (enum, field name, width in bits): where "enum fields accept any in-range value" is probed
     for e in enums:
         w = max(1, min(8, (e["max_bits"] + 7) // 8 if e["max_bits"] % 8 == 0 else e["max_bits"] // 8))
         if w * 8 > e["max_bits"]:
             continue
         lines.append("  %d [+%d]  %s  f%d" % (off, w, e["name"], off))
+        fields.append((e, "f%d" % off, w * 8))
         off += w
+    # fields narrower than the enum's C++ type, inside a bits block
+    narrow = [(e, rng.randint(1, min(e["max_bits"], 15))) for e in enums if e["max_bits"] >= 1]
+    if narrow:
+        total = sum(wb for _e, wb in narrow)
+        nbytes = (total + 7) // 8
+        if nbytes in (1, 2, 3, 4, 5, 6, 7, 8):
+            lines.append("  %d [+%d]  bits:" % (off, nbytes))
+            pos = 0
+            for j, (e, wb) in enumerate(narrow):
+                lines.append("    %d [+%d]  %s  nb%d" % (pos, wb, e["name"], j))
+                fields.append((e, "nb%d" % j, wb))
+                pos += wb
+            off += nbytes
     if off == 0:
         lines.append("  0 [+1]  UInt  pad")
+        off = 1
+    holder_size = off
     text = "\n".join(lines) + "\n"
     traits = arg["idx"] % 4 != 3
     try:
@@ -231,7 +269,7 @@ def module_case(arg):
             f.write(hdr)
         comp = arg["idx"] % 2
         flav = "plain" if comp == 0 else "gcc0"
-        b, err = cppdrv.build(d, driver_source(ns.strip(":"), enums, probes, traits), flav, name="enumdrv")
+        b, err = cppdrv.build(d, driver_source(ns.strip(":"), enums, probes, traits, fields, holder_size), flav, name="enumdrv")
         if b is None:
             out["viol"].append({"mech": "driver-does-not-compile", "what": err[-1500:], "text": text, "coords": {"seed": arg["seed"], "idx": arg["idx"]}})
             return out
@@ -264,6 +302,20 @@ def module_case(arg):
                                 "text": text, "coords": {"seed": arg["seed"], "idx": arg["idx"]}})
         elif out["sample"] is None:
             out["sample"] = {"definition": e["lines"], "observed": {k: got[k] for k in list(exp)[:12]}}
+    # enum fields accept any value the field can hold, named or not, and refuse the others
+    fdiffs = []
+    for e, fname, wbits in fields:
+        if e["signed"]:
+            continue
+        for x in field_probe_values(e, wbits):
+            want = "111" if x <= (1 << wbits) - 1 else "000"
+            g = got.get("field.%s.%d" % (fname, x))
+            out["field_probes"] = out.get("field_probes", 0) + 1
+            if g != want:
+                fdiffs.append("%s (%d bits, enum %s): value %d could/try/readback %s expected %s" % (fname, wbits, e["name"], x, g, want))
+    if fdiffs:
+        out["viol"].append({"mech": "enum-field-acceptance", "what": "; ".join(fdiffs[:5]), "text": text,
+                            "coords": {"seed": arg["seed"], "idx": arg["idx"]}})
     return out
 
 
@@ -291,6 +343,7 @@ def run(ctx):
         ctx.evaluations += v["enums"]
         ctx.count("enums_judged", v["enums"])
         ctx.count("keys_compared", v["keys"])
+        ctx.count("enum_field_write_probes", v.get("field_probes", 0))
         for k, c in v["features"].items():
             feats[k] = feats.get(k, 0) + c
         for h in v["distinct"]:
